@@ -207,8 +207,14 @@ def _c_unwrap(it, st, name, args, t):
     return None
 
 
+def _c_default_scalar(it, st, name, args, t):
+    # std contract: Default for the primitive integer types is 0, for bool false
+    return C(False) if name.startswith('<bool ') else C(0)
+
+
 STD_CONTRACTS = {
     r'^core::(option::Option|result::Result)::(unwrap|expect|unwrap_err|expect_err)$': _c_unwrap,
+    r'^<(usize|isize|u8|u16|u32|u64|u128|i8|i16|i32|i64|i128|bool) as core::default::Default>::default$': _c_default_scalar,
 }
 
 
@@ -232,10 +238,10 @@ _BASELINE_FNS = {}
 
 
 def is_new_helper(f):
-    """a non-public function that does not exist on the reference tree (after renamed items have been mapped back): an extracted
+    """a function that does not exist on the reference tree (after renamed items have been mapped back): an extracted
     helper. Functions the rules know by name (the reference tree's own items) are never opened up by this policy."""
-    if f.kind not in ('fn', 'assoc') or not getattr(f, 'vis', None) or f.vis == 'Public' or len(f.blocks) > 120:
-        return False
+    if f.kind not in ('fn', 'assoc') or len(f.blocks) > 120:
+        return False      # (nominal visibility is not consulted: a `pub fn` of a crate-private type is a helper too)
     crate = getattr(f.facts, 'crate', None)
     if crate not in _BASELINE_FNS:
         try:
